@@ -32,10 +32,15 @@ with the output of the real function on every generated case.
 `min(left_to_map, key=...)`, `min(candidates[n], key=len)`, `for sgn2 in left_to_map`,
 `for nodes in to_be_mapped` iterate sets.  The SET of yielded mappings does not depend on these
 orders (theorems `mapNodes_*` hold for every choice function `pick` that returns a member of its
-argument), the ORDER of the yields does.  The model fixes: `left_to_map` in the order of
-`to_be_mapped` (the pattern-node order), ties in `min` to the first element in that order, and
-the harness compares outputs as SORTED lists (with multiplicity).  Note the key of the outer `min`
-is a frozenset, so `<` is "proper subset": `pickMin` transcribes exactly that.
+argument), the ORDER of the yields does.  Two ways of running the model:
+(a) `pickMin`: `left_to_map` in the order of `to_be_mapped` (the pattern-node order), ties in `min`
+    to the first element in that order; outputs compared as SORTED lists with multiplicity (ops `tiso`, `tlcs`);
+(b) RECORDED choices: the harness records the node every real `_map_nodes` call was started with,
+    the driver feeds them back as `pick` after checking each with `legalChoice` (is it a possible
+    result of the code's `min(..)` for SOME iteration order?) and compares the yield SEQUENCES
+    (ops `qiso`, `qlcs`).  CPython's set iteration order itself is not modelled.
+Note the key of the outer `min` is a frozenset, so `<` is "proper subset": `pickMin` / `legalChoice`
+transcribe exactly that.
 
 ## Deviations (all unreachable from `find_isomorphisms` / `largest_common_subgraph`)
 
@@ -177,9 +182,26 @@ def pickMin (c : Cands) : List Int → Int
   | u :: rest =>
     rest.foldl (fun best x => if properSubset (smallest (c.get x)) (smallest (c.get best)) then x else best) u
 
+/-- Which results of `min(nodes, key=lambda n: min(candidates[n], key=len))` are possible, whatever the
+iteration order of the sets involved: `x` is a member of `nodes` and for one of its shortest candidate sets
+`kx` no other node `y` is forced to have a key that is a proper subset of `kx` (every `y` has a shortest
+candidate set that is not a proper subset of `kx`).  (`min` keeps the first item and replaces it only by a
+strictly smaller one, so its result is a minimal element, and every minimal element is the result for some
+order.) -/
+def shortestSets (cs : List NodeSet) : List NodeSet :=
+  cs.filter fun s => cs.all fun s' => s.length ≤ s'.length
+
+def legalChoice (c : Cands) (nodes : List Int) (x : Int) : Bool :=
+  nodes.contains x &&
+    (if (c.get x).isEmpty then [[]] else shortestSets (c.get x)).any fun kx =>
+      nodes.all fun y => y == x ||
+        (if (c.get y).isEmpty then [[]] else shortestSets (c.get y)).any fun ky => !properSubset ky kx
+
 /-- `_map_nodes(sgn, candidates, constraints, mapping, to_be_mapped)`; `pick` is the rule choosing the
-next node among `left_to_map` (`pickMin` for the code). -/
-def mapNodes (pick : Cands → List Int → Int) (g sg : Graph) (C : Constraints) :
+next node among `left_to_map` (`fun _ => pickMin` for the code with a fixed iteration order; the driver
+also runs it with the choices RECORDED from the real run, each checked with `legalChoice`).  `pick`
+sees the mapping made so far (the recorded choices are keyed by it). -/
+def mapNodes (pick : Map → Cands → List Int → Int) (g sg : Graph) (C : Constraints) :
     Nat → Int → Cands → Map → List Int → List Map
   | 0, _, _, _, _ => []
   | fuel + 1, sgn, cands, mapping, tbm =>
@@ -196,7 +218,7 @@ def mapNodes (pick : Cands → List Int → Int) (g sg : Graph) (C : Constraints
           if left.isEmpty then []
           else
             let newCands := left.foldl (addOptions g sg C sgn gn) cands
-            mapNodes pick g sg C fuel (pick newCands left) newCands mapping' tbm
+            mapNodes pick g sg C fuel (pick mapping' newCands left) newCands mapping' tbm
 
 /-! ### `find_isomorphisms` -/
 
@@ -206,14 +228,14 @@ def initialCands (edgeNone : Bool) (g sg : Graph) : Cands :=
     let extra := lookaheadSet edgeNone g sg u
     (u, if extra.isEmpty then [nodeColourSet g sg u] else insertSet [nodeColourSet g sg u] extra)
 
-def findIsomorphismsWith (pick : Cands → List Int → Int) (edgeNone : Bool) (g sg : Graph) (C : Constraints) : List Map :=
+def findIsomorphismsWith (pick : Map → Cands → List Int → Int) (edgeNone : Bool) (g sg : Graph) (C : Constraints) : List Map :=
   if sg.keys.isEmpty then [[]]
   else if g.keys.isEmpty then []
   else if g.keys.length < sg.keys.length then []
   else
     let cands := initialCands edgeNone g sg
     if cands.any fun e => !e.2.isEmpty then
-      let start := pick cands (cands.map Prod.fst)
+      let start := pick [] cands (cands.map Prod.fst)
       let cands := cands.set start [intersect (cands.get start)]
       mapNodes pick g sg C sg.keys.length start cands [] sg.keys
     else []
@@ -221,7 +243,7 @@ def findIsomorphismsWith (pick : Cands → List Int → Int) (edgeNone : Bool) (
 /-- `find_isomorphisms(symmetry)` with `constraints` as produced by `analyze_symmetry` + `_make_constraints`
 (`[]` for `symmetry=False`) -/
 def findIsomorphisms (edgeNone : Bool) (g sg : Graph) (C : Constraints) : List Map :=
-  findIsomorphismsWith pickMin edgeNone g sg C
+  findIsomorphismsWith (fun _ => pickMin) edgeNone g sg C
 
 /-! ### `_remove_node`, `_largest_common_subgraph`, `largest_common_subgraph` -/
 
@@ -245,10 +267,10 @@ def dedup : List (List Int) → List (List Int)
   | a :: l => if l.contains a then dedup l else a :: dedup l
 
 /-- the `for nodes in sorted(to_be_mapped, key=sorted): .. yield from self._map_nodes(next_sgn, ..)` loop -/
-def lcsFound (pick : Cands → List Int → Int) (g sg : Graph) (cands : Cands) (C : Constraints)
+def lcsFound (pick : Map → Cands → List Int → Int) (g sg : Graph) (cands : Cands) (C : Constraints)
     (tbm : List (List Int)) : List Map :=
   (sortBy (fun a b => lexLe (sortInts a) (sortInts b)) tbm).flatMap fun nodes =>
-    mapNodes pick g sg C nodes.length (pick cands nodes) cands [] nodes
+    mapNodes pick g sg C nodes.length (pick [] cands nodes) cands [] nodes
 
 /-- `left_to_be_mapped`: every set of `to_be_mapped` with one node removed (`_remove_node`), as a set -/
 def lcsShrink (C : Constraints) (tbm : List (List Int)) : List (List Int) :=
@@ -256,7 +278,7 @@ def lcsShrink (C : Constraints) (tbm : List (List Int)) : List (List Int) :=
 
 /-- `_largest_common_subgraph(candidates, constraints, to_be_mapped)`; `level` = `current_size` bounds
 the recursion (one node fewer per level). -/
-def lcsWith (pick : Cands → List Int → Int) (g sg : Graph) (cands : Cands) (C : Constraints) :
+def lcsWith (pick : Map → Cands → List Int → Int) (g sg : Graph) (cands : Cands) (C : Constraints) :
     Nat → List (List Int) → List Map
   | 0, _ => []
   | level + 1, tbm =>
@@ -265,7 +287,7 @@ def lcsWith (pick : Cands → List Int → Int) (g sg : Graph) (cands : Cands) (
     if !found.isEmpty || currentSize == 1 then found
     else lcsWith pick g sg cands C level (lcsShrink C tbm)
 
-def largestCommonSubgraphWith (pick : Cands → List Int → Int) (g sg : Graph) (C : Constraints) : List Map :=
+def largestCommonSubgraphWith (pick : Map → Cands → List Int → Int) (g sg : Graph) (C : Constraints) : List Map :=
   if sg.keys.isEmpty then [[]]
   else if g.keys.isEmpty then []
   else
@@ -273,6 +295,7 @@ def largestCommonSubgraphWith (pick : Cands → List Int → Int) (g sg : Graph)
     if cands.any fun e => !e.2.isEmpty then lcsWith pick g sg cands C sg.keys.length [sg.keys]
     else []
 
-def largestCommonSubgraph (g sg : Graph) (C : Constraints) : List Map := largestCommonSubgraphWith pickMin g sg C
+def largestCommonSubgraph (g sg : Graph) (C : Constraints) : List Map :=
+  largestCommonSubgraphWith (fun _ => pickMin) g sg C
 
 end C06I
